@@ -611,7 +611,7 @@ def angvec2r(theta, v, unit='rad'):
     if not np.isscalar(theta) or not base.isvector(v, 3):
         raise ValueError("Arguments must be theta and vector")
 
-    if np.linalg.norm(v) < 10 * _eps:
+    if np.linalg.norm(v) < 100 * _eps:
         return np.eye(3)
 
     theta = base.getunit(theta, unit)
